@@ -34,7 +34,11 @@ SPEC = {
              "strings / nothing, with and without return annotation; 4 signatures in the F45 region; 3 un-renderable "
              "annotations; 13 orders of virtual / persistent / method entries; 11 target x class-name combinations on two "
              "schemas) plus seeded random schemas (0-8 fields, 0-3 methods with generated signatures, nesting depth <= 2, "
-             "targets schema / configuration / config type); non-trivial = a stub is returned for a non-empty schema; "
+             "targets schema / configuration / config type); every case generates the stub up to 8 times in one process "
+             "(same target again, the schema, a configuration built from it, a sibling schema and a config type that share "
+             "the method function objects, then the schema and the target again): every generation must satisfy the whole "
+             "oracle and equal the first one character for character, and signature / __annotations__ / defaults of the "
+             "method functions must be unchanged; non-trivial = a stub is returned for a non-empty schema; "
              "distinct = distinct case"),
     "trusted_base": [KERNEL, "Print Assumptions: closed under the global context (no axioms)", TIE, HARNESS,
                      "modelled, not verified: str() of typing constructs and class __module__/__name__ (read off the real "
